@@ -77,6 +77,7 @@ def witness0 : Globals where
   ReadFile := fun _ => none
   b64dec := fun _ => none
   WriteFile := fun _ _ _ => true
+  Stat := fun _ => .notExist
   eagerRedactionPaths := []
   UnmarshalOrdered := fun bs => if bs = utf8 witnessLine then some witnessEntry else parseObj bs
   redactFieldNamesFromPlanSummary := redactPlan "REDACTED".toList
